@@ -685,9 +685,14 @@ impl C {
                 self.needs_union_int32_float = true;
                 format!("((union int32_float){{ (int32_t) {op} }}).b")
             }
-            Bitcast::F32ToI32 | Bitcast::F32ToI64 => {
+            Bitcast::F32ToI32 => {
                 self.needs_union_float_int32 = true;
                 format!("((union float_int32){{ {op} }}).b")
+            }
+            // zero-extend the 32 payload bits into the 64-bit slot
+            Bitcast::F32ToI64 => {
+                self.needs_union_float_int32 = true;
+                format!("(int64_t) (uint32_t) ((union float_int32){{ {op} }}).b")
             }
             Bitcast::I64ToF64 => {
                 self.needs_union_int64_double = true;
@@ -697,7 +702,11 @@ impl C {
                 self.needs_union_double_int64 = true;
                 format!("((union double_int64){{ {op} }}).b")
             }
-            Bitcast::I32ToI64 | Bitcast::LToI64 | Bitcast::PToP64 => {
+            // zero-extend, as the canonical ABI does when joining `i32` into `i64`
+            Bitcast::I32ToI64 => {
+                format!("(int64_t) (uint32_t) {op}")
+            }
+            Bitcast::LToI64 | Bitcast::PToP64 => {
                 format!("(int64_t) {op}")
             }
             Bitcast::I64ToI32 | Bitcast::I64ToL => {
